@@ -151,8 +151,11 @@ def gen_ops(cfg, rng):
             if isinstance(s, str) and s != 'None':
                 ops.append({'op': 'scalar', 'value': SCALARS[s]})
     base = dict(values_for(members[0], rng))
-    unknown = [t for t in ['K9', 'nope', '', (tags[0] or 'x').lower() + '_', (tags[0] or 'x') + ' ', 'Dup2'] if t not in tags]
-    for t in rng.sample(unknown, min(2, len(unknown))):
+    t0 = rng.choice([t for t in tags if t] or ['x'])
+    near = [t0.lower(), t0.upper(), t0.swapcase(), t0[:-1], t0 + t0, t0 + ' ', ' ' + t0, t0.lower() + '_']
+    unknown = [t for t in ['K9', 'nope', '', 'Dup2'] if t not in tags]
+    near = [t for t in dict.fromkeys(near) if t not in tags]
+    for t in rng.sample(unknown, min(1, len(unknown))) + rng.sample(near, min(2, len(near))):
         ops.append({'op': 'load', 'doc': dict(base, **{tk: t}), 'expect': 'unknown_tag'})
     ops.append({'op': 'load', 'doc': dict(base), 'expect': 'no_tag'})
     return ops
@@ -162,11 +165,11 @@ def gen_configs(ctx):
     quick = ctx.tier == 'quick'
     rng = ctx.sub_rng('cfg')
     cfgs = []
-    n_main = 420 if quick else 5000
+    n_main = 420 if quick else 3000
     for i in range(n_main):
         cfgs.append(gen_config(rng, rng.choice(['v0', 'v1']), rng.choice(['roundtrip', 'roundtrip', 'loadfirst'])))
     # all argument orders of one family (<= 4 arguments), same family / values / engine
-    for _ in range(4 if quick else 40):
+    for _ in range(4 if quick else 25):
         base = gen_config(rng, rng.choice(['v0', 'v1']), 'roundtrip')
         args = base['order'][:4] if len(base['order']) > 4 else base['order']
         if not all(i in args for i in range(len(base['members']))):
@@ -180,7 +183,7 @@ def gen_configs(ctx):
             c['ops'] = [o for o in c['ops'] if not (o['op'] == 'scalar' and type(o['value']).__name__ not in p)]
             cfgs.append(c)
     # region F9: equal __name__s
-    for _ in range(30 if quick else 300):
+    for _ in range(30 if quick else 200):
         cfgs.append(gen_config(rng, rng.choice(['v0', 'v1']), rng.choice(['roundtrip', 'loadfirst']), equal_names=True))
     seen, out = set(), []
     for c in cfgs:
@@ -400,22 +403,35 @@ def norm_model(s):
     return s
 
 
-def model_exprs(cfg, res):
-    """(op index, kind, Gallina expression) for the operations the model covers."""
+def model_exprs(cfg, res, n):
+    """(prelude, [(op index, kind, Gallina expression)]) for the operations the model covers; the family is
+    defined once in the prelude (constants suffixed with n)."""
     out = []
-    c, args, pos = coq_conf(cfg), coq_args(cfg), POS_COQ[cfg['container']['position']]
+    pre_lines = ['Definition c_%d : uconf := %s.' % (n, coq_conf(cfg))]
+    for i in range(len(cfg['members'])):
+        pre_lines.append('Definition m_%d_%d : member := %s.' % (n, i, coq_member(cfg, i)))
+    args = []
+    for a in cfg['order']:
+        if isinstance(a, int):
+            args.append('AData m_%d_%d' % (n, a))
+        elif a == 'None':
+            args.append('ANone')
+        else:
+            args.append('AScalar %s' % {'int': 'SInt', 'str': 'SStr', 'bool': 'SBool', 'float': 'SFloat'}[a])
+    pre_lines.append('Definition a_%d : list arg := %s.' % (n, coq_list(args)))
+    c, pos = 'c_%d' % n, POS_COQ[cfg['container']['position']]
     pre = 'true' if cfg['mode'] == 'roundtrip' else 'false'
     if cfg['engine'] == 'v0':
-        loader = '(load_union_v0 %s %s %s)' % (c, pre, args)
+        loader = '(load_union_v0 %s %s a_%d)' % (c, pre, n)
     else:
-        loader = '(load_union_v1 no_coerce %s %s)' % (c, args)
+        loader = '(load_union_v1 no_coerce %s a_%d)' % (c, n)
     for k, (op, r) in enumerate(zip(cfg['ops'], res['ops'])):
         if op['op'] == 'roundtrip':
             if 'dumped' not in r:
                 continue
             i = op['member']
             vals = coq_list(['(%s, %s)' % (coq_str(f), coq_jv(op['values'][f])) for f, _, _ in cfg['members'][i]['fields']])
-            out.append((k, 'dump', 'show_jv (dump_lv %s (LInst %s %s []))' % (c, coq_member(cfg, i), vals)))
+            out.append((k, 'dump', 'show_jv (dump_lv %s (LInst m_%d_%d %s []))' % (c, n, i, vals)))
             doc = WRAP[cfg['container']['position']](uncanon(r['dumped']))
             out.append((k, 'load', 'show_res (load_pos %s %s %s)' % (loader, pos, coq_jv(doc))))
         elif op['op'] == 'load':
@@ -423,7 +439,36 @@ def model_exprs(cfg, res):
                 continue      # v1 coercions of the scalar loaders are an oracle the harness does not supply
             doc = WRAP[cfg['container']['position']](op['doc'])
             out.append((k, 'load', 'show_res (load_pos %s %s %s)' % (loader, pos, coq_jv(doc))))
-    return out
+    return '\n'.join(pre_lines), out
+
+
+def eval_model(ctx, cfgs, results, limit):
+    """Run the model on (at most `limit`) configurations; chunks of <= 200 expressions, each chunk one coqc
+    process with the chunk's families in its prelude.  Returns (plan, outputs) or raises."""
+    import concurrent.futures as cf
+    chunks, cur_pre, cur_plan, cur_exprs = [], [], [], []
+    for ci, (cfg, res) in enumerate(zip(cfgs, results)):
+        if ci >= limit:
+            break
+        if res.get('setup'):
+            continue
+        pre, items = model_exprs(cfg, res, ci)
+        if cur_exprs and len(cur_exprs) + len(items) > 200:
+            chunks.append((cur_pre, cur_plan, cur_exprs)); cur_pre, cur_plan, cur_exprs = [], [], []
+        cur_pre.append(pre)
+        for k, kind, e in items:
+            cur_plan.append((ci, k, kind)); cur_exprs.append(e)
+    if cur_exprs:
+        chunks.append((cur_pre, cur_plan, cur_exprs))
+
+    def one(j):
+        pre, plan, exprs = chunks[j]
+        return ctx.coq(exprs, ['PyStr', 'TagUnion'], prelude='\n'.join(pre), tag='cases_%d' % j)
+    plan_all, out_all = [], []
+    with cf.ThreadPoolExecutor(max_workers=8 if ctx.tier == 'quick' else 14) as ex:
+        for j, out in enumerate(ex.map(one, range(len(chunks)))):
+            plan_all.extend(chunks[j][1]); out_all.extend(out)
+    return plan_all, out_all
 
 
 # --------------------------------------------------------------------------------------
@@ -470,17 +515,12 @@ def run(ctx):
     results = run_configs(ctx, cfgs)
 
     # ---- model ----
-    plan, exprs = [], []
-    for ci, (cfg, res) in enumerate(zip(cfgs, results)):
+    for res in results:
         if 'runner_error' in res:
             raise RuntimeError('c13 runner failed: %s' % res['runner_error'])
-        if res.get('setup'):
-            continue
-        for k, kind, e in model_exprs(cfg, res):
-            plan.append((ci, k, kind)); exprs.append(e)
-    model = None
+    model = plan = None
     try:
-        model = ctx.coq(exprs, ['PyStr', 'TagUnion'])
+        plan, model = eval_model(ctx, cfgs, results, limit=10 ** 9 if ctx.tier == 'quick' else 1500)
     except Exception as e:  # noqa
         ctx.broken_tie('model evaluation failed: %s' % str(e)[:600])
 
